@@ -53,7 +53,7 @@ fn consume<S: Stream<Item = Result<u32, ipc_channel::Error>> + Unpin>(mut s: S, 
                 Some(Err(e)) => return Err(format!("stream item failed to decode: {}", e)),
                 None => return Ok(got),
             }
-            if got.len() > 100 {
+            if got.len() > 1000 {
                 return Err("stream does not end".into());
             }
         }
@@ -74,7 +74,7 @@ fn consume<S: Stream<Item = Result<u32, ipc_channel::Error>> + Unpin>(mut s: S, 
                 }
             },
         }
-        if got.len() > 100 {
+        if got.len() > 1000 {
             return Err("stream does not end".into());
         }
     }
@@ -138,8 +138,57 @@ fn body(p: &P) -> Result<(), String> {
     Ok(())
 }
 
+/// n receivers converted in a row while every channel is idle and every sender stays alive; then
+/// one message on the last-converted channel must come out of its stream
+fn quiet_burst_body(n: usize, manual: bool) -> Result<(), String> {
+    let mut txs = Vec::new();
+    let mut streams = Vec::new();
+    for _ in 0..n {
+        let (tx, rx) = ipc::channel::<u32>().map_err(|e| e.to_string())?;
+        txs.push(tx);
+        streams.push(rx.to_stream());
+    }
+    txs[n - 1].send(4242).map_err(|e| e.to_string())?;
+    let mut last = streams.pop().unwrap();
+    let first = if manual {
+        let w = Arc::new(ParkWaker { woken: AtomicBool::new(false), count: AtomicUsize::new(0), thread: std::thread::current() });
+        let waker = futures::task::waker(w.clone());
+        let mut cx = Context::from_waker(&waker);
+        loop {
+            match Pin::new(&mut last).poll_next(&mut cx) {
+                Poll::Ready(x) => break x,
+                Poll::Pending => {
+                    while !w.woken.swap(false, Ordering::SeqCst) {
+                        std::thread::park();
+                    }
+                },
+            }
+        }
+    } else {
+        futures::executor::block_on(last.next())
+    };
+    match first {
+        Some(Ok(4242)) => {},
+        other => return Err(format!("the stream converted last yielded {:?} instead of its message", other.map(|r| r.map_err(|e| e.to_string())))),
+    }
+    drop(txs);
+    streams.push(last);
+    for (i, st) in streams.into_iter().enumerate() {
+        let got = consume(st, false)?;
+        if !got.is_empty() {
+            return Err(format!("stream {} yielded {:?} after its channel was idle", i, got));
+        }
+    }
+    Ok(())
+}
+
 pub fn scenarios(tier: Tier) -> Vec<Scenario> {
     let mut v = Vec::new();
+    for (n, manual) in [(9usize, false), (12, true), (33, false)] {
+        let mut cfg = sched_cfg();
+        cfg.post_points = true;
+        v.push(Scenario::new(format!("quiet burst of {} conversions{}", n, if manual { " (manual poll)" } else { "" }), cfg, if tier.is_quick() || n > 12 { 0 } else { 1 }, move || quiet_burst_body(n, manual)));
+    }
     let mut add = |chans: Vec<Ch>, bound: u32| {
         let p = P { chans };
         let name = format!("{:?}", p.chans.iter().map(|c| format!("pre{}/post{}/by{}{}{}", c.pre, c.post, c.by, if c.manual { "/manual" } else { "" }, if c.drop_before_convert { "/dropped-first" } else { "" })).collect::<Vec<_>>());
@@ -148,6 +197,13 @@ pub fn scenarios(tier: Tier) -> Vec<Scenario> {
         v.push(Scenario::new(name, cfg, bound, move || body(&p)));
     };
     let c = |pre, post, by, manual, d| Ch { pre, post, by, manual, drop_before_convert: d };
+    // bursts: many conversions in a row (their wake-ups coalesce in one wait of the routing
+    // thread) and long backlogs (the consumer far behind the routing thread)
+    let burst = |n: usize, manual: bool| -> Vec<Ch> { (0..n).map(|i| c(if i == n - 1 { 1 } else { 0 }, if i % 4 == 0 { 1 } else { 0 }, 0, manual, false)).collect() };
+    add(burst(12, false), if tier.is_quick() { 0 } else { 1 });
+    add(burst(if tier.is_quick() { 20 } else { 40 }, true), 0);
+    add(vec![c(if tier.is_quick() { 40 } else { 80 }, 3, 0, false, false)], if tier.is_quick() { 0 } else { 1 });
+    add(vec![c(2, 45, 0, true, false), c(40, 0, 1, false, true)], 0);
     if tier.is_quick() {
         add(vec![c(1, 1, 0, false, false)], 2);
         add(vec![c(0, 2, 0, true, false)], 2);
